@@ -13,6 +13,8 @@ table after normalising.
 
 Conditions are compared as sets of normalised atoms (rules/atoms.py), so
 `r != RANK_7`, `r < RANK_7` and `!(r == RANK_7)` are the same guard."""
+import re
+
 from facts import AnalysisBroken
 from prog import walk, kids, short, access_kind
 from rules import pack
@@ -129,6 +131,8 @@ def check(ctx):
     UNK, WIN = RES['kUNKNOWN'], RES['kWIN']
 
     def anchor(f, st):
+        if st['k'] == 'DoStmt':
+            return kids(st)[1]            # the loop condition: dominated by what precedes the loop, dominates what follows it
         return st['ch'][0] if st['k'] == 'ForStmt' else kids(st)[0] if st['k'] == 'WhileStmt' else st
 
     def noresults(g):
@@ -377,20 +381,28 @@ def check(ctx):
            'argument order (side, white king, pawn, black king) is shared by getIndex, parse_index and check', site=gi.loc())
 
     # ---- R3 normalisation ----------------------------------------------------------------------------------------------
-    arms_n = {}
-    for n in norm.all_nodes():
-        if n['k'] == 'IfStmt':
-            arms_n[conj(norm, kids(n)[0])] = frozenset((l, cn(norm, r)) for l, r, x in assigns(norm, kids(n)[1]))
-    want_n = {
-        frozenset({IN('file(strongPawn)', 4, 5, 6, 7)}): frozenset({('strongKing', 'flip_horizontally(strongKing)'),
-                                                                    ('strongPawn', 'flip_horizontally(strongPawn)'),
-                                                                    ('weakKing', 'flip_horizontally(weakKing)')}),
-        frozenset({IN('strongSide', B)}): frozenset({('strongKing', 'flip_vertically(strongKing)'), ('strongPawn', 'flip_vertically(strongPawn)'),
-                                                     ('weakKing', 'flip_vertically(weakKing)'), ('side', '!(side)')}),
-    }
-    ctx.ob('C12.R3.normalize', 'normalize', arms_n == want_n and len(assigns(norm)) == 7,
-           'normalisation mirrors all three squares together: horizontally when the pawn is on files e-h, vertically (and swaps the side to move) '
-           'when Black owns the pawn', site=norm.loc(), detail={'found': str({show(k): sorted(v) for k, v in arms_n.items()})})
+    from rules.cases import effects_under as _eun
+    FL = p.enum('engine::File')
+    bad_n = None
+    for fv in (FL['FILE_C'], FL['FILE_D'], FL['FILE_E'], FL['FILE_H']):
+        for ss in (W, B):
+            got = _eun(norm, kids(norm.body), {'file(strongPawn)': fv, 'strongSide': ss},
+                       keep=('strongKing', 'strongPawn', 'weakKing', 'side', 'strongSide'))
+            want_ = []
+            if fv > FL['FILE_D']:
+                want_ += ['(%s=flip_horizontally(%s))' % (v_, v_) for v_ in ('strongKing', 'strongPawn', 'weakKing')]
+            if ss == B:
+                want_ += ['(%s=flip_vertically(%s))' % (v_, v_) for v_ in ('strongKing', 'strongPawn', 'weakKing')] + ['(side=!(side))']
+            if sorted(got) != sorted(want_):
+                extra_ = [g_ for g_ in got if g_ not in want_]
+                miss_ = [w_ for w_ in want_ if w_ not in got]
+                if extra_ and not all(re.fullmatch(r'\((strongKing|strongPawn|weakKing|side)=.*\)', e_) for e_ in extra_):
+                    raise AnalysisBroken('C12.R3: normalize does `%s`, which the rule does not know' % extra_[0])
+                if bad_n is None:
+                    bad_n = 'pawn file %d, strong side %s: %s, expected %s' % (fv, 'black' if ss == B else 'white', got, want_)
+    ctx.ob('C12.R3.normalize', 'normalize', bad_n is None,
+           'normalisation mirrors all three squares together: horizontally when the pawn is on files e-h, vertically (and swaps the side '
+           'to move) when Black owns the pawn%s' % ('' if bad_n is None else ' — ' + bad_n), site=norm.loc())
 
     # ---- R4 terminal rules --------------------------------------------------------------------------------------------------
     pc = [n for n, cfid, nm in ini.calls() if nm == BB + 'parse_index']
@@ -499,10 +511,11 @@ def check(ctx):
         okd = len(resets) == 1 and len(sets) == 1 and len(upd) == 1
         if okd:
             s = sets[0]
+            NEW = (('ne', 'results[idx]', UNK), ('ne', 'update_score(results,idx)', UNK))
             if s['k'] == 'CompoundAssignOperator':
-                okset = norm_atom(init, kids(s)[1]) == ('ne', 'results[idx]', UNK)
+                okset = norm_atom(init, kids(s)[1]) in NEW
             else:
-                okset = ('ne', 'results[idx]', UNK) in facts_atoms(init, guard_facts(init, s))
+                okset = any(a_ in facts_atoms(init, guard_facts(init, s)) for a_ in NEW)
             fors = [x for x in walk(body) if x['k'] == 'ForStmt']
             okd = okset and init.cfg.node_dominates(upd[0], s) and \
                 ('eq', 'results[idx]', UNK) in facts_atoms(init, guard_facts(init, upd[0])) and \
@@ -520,7 +533,8 @@ def check(ctx):
     fin = [x for x in init.all_nodes() if x['k'] == 'CompoundAssignOperator' and x.get('op') == '|=' and 'BITBASE' in cn(init, x)]
     okp = len(fin) == 1
     if okp:
-        g = frozenset(a for a in facts_atoms(init, guard_facts(init, fin[0])) if a[1] != 'idx')
+        flagn = cn(init, kids(wl[0])[0] if wl and wl[0]['k'] == 'WhileStmt' else kids(wl[0])[1]) if wl else None
+        g = frozenset(a for a in facts_atoms(init, guard_facts(init, fin[0])) if a[1] != 'idx' and a[1] != flagn)
         fl = [x for x in init.ancestors(fin[0]) if x['k'] == 'ForStmt']
         okp = g == frozenset({('eq', 'results[idx]', WIN)}) and len(fl) == 1 and full_sweep(init, fl[0]) and \
             (not wl or init.cfg.node_dominates(anchor(init, wl[0]), anchor(init, fl[0])))
@@ -530,7 +544,13 @@ def check(ctx):
     full = [s for s in fs if s[0].name == BB + 'init' and s[5] == (0, s[4] - 1)]
     others = [s for s in fs if s not in full and s[2] != 'read']
     okc = len(full) == 1
-    if okc and fin:
+    fills_ = [n_ for n_, _c, nm_ in init.calls() if nm_.split('<')[0] in ('std::fill', 'std::fill_n')]
+    if not full and len(fills_) == 1 and fin:
+        # std::fill(std::begin(BITBASE), std::end(BITBASE), 0)
+        a_ = [cn(init, x_) for x_ in kids(fills_[0])[1:]]
+        okc = a_[:2] == ['begin(BITBASE)', 'end(BITBASE)'] and const_of(strip_casts(kids(fills_[0])[3])) == 0 and \
+            init.cfg.node_dominates(fills_[0], anchor(init, [x for x in init.ancestors(fin[0]) if x['k'] == 'ForStmt'][0]))
+    elif okc and fin:
         l1 = [x for x in init.ancestors(full[0][1]) if x['k'] == 'ForStmt']
         l2 = [x for x in init.ancestors(fin[0]) if x['k'] == 'ForStmt']
         okc = len(l1) == 1 and len(l2) == 1 and init.cfg.node_dominates(anchor(init, l1[0]), anchor(init, l2[0]))
